@@ -46,6 +46,7 @@ class Verifier:
         self.global_model = None
         self.log_domain = False
         self.vacuity_alarms = []
+        self.extra_requires = []
         self._spec_cache = {}
         self._loop_ord = {}
         self.covers = set()
@@ -211,7 +212,7 @@ class Verifier:
             env[gname] = I.fresh(gty, gname)
         for name, e in con.let.items():
             env[name] = I.eval_spec(e, env)
-        for e in con.requires:
+        for e in list(con.requires) + list(self.extra_requires):
             I.assume(bz(I.eval_spec(e, env)))
         for anchor, _callee, hexpr in con.hints:
             if anchor == "at_start":
@@ -300,6 +301,14 @@ class Verifier:
     def check_raise(self, I, con, r, entry_env):
         allowed = dict(con.raises)
         allowed.update(con.extra.get("may_raise", {}))
+        if r.exc == "SystemExit" and con.extra.get("exit_code"):
+            env3 = dict(entry_env)
+            env3.update(I.old_env)
+            want = I.eval_spec(con.extra["exit_code"], env3)
+            from .values import veq
+            I.oblige(f"exit_code@{r.lineno}",
+                     bz(veq(I.ghost.get("exit_code"), want)), "raises",
+                     r.lineno)
         if r.exc in allowed:
             cond = allowed[r.exc]
             if cond is None:
@@ -402,9 +411,39 @@ def discharge(obls, timeout_ms=10000, use_cvc5=False, refute=True):
         if z3.is_true(z3.simplify(g)):
             o.status, o.solver, o.time = "discharged", "trivial", 0.0
             continue
+        if o.kind == "interrupt_inv" and z3.is_and(g):
+            # conjunctive point-wise invariant: clause by clause, stopping
+            # at the first refuted clause (each proved clause is sound on
+            # its own; one refuted clause refutes the conjunction)
+            verdicts = []
+            for c in g.children():
+                sub = E.Obl(o.name, "sub", o.func, o.lineno, o.hyps, c,
+                            o.path)
+                sub.interp, sub.ncalls = o.interp, o.ncalls
+                discharge([sub], timeout_ms, use_cvc5, refute)
+                verdicts.append(sub.status)
+                if sub.status == "refuted":
+                    o.status, o.solver, o.model = "refuted", sub.solver, \
+                        sub.model
+                    o.note = f"clause {len(verdicts) - 1} fails"
+                    break
+            else:
+                if all(v == "discharged" for v in verdicts):
+                    o.status, o.solver = "discharged", "z3"
+                else:
+                    o.status, o.solver = "unknown", "z3"
+                    o.note = "clauses: " + ",".join(verdicts)
+            o.time = time.time() - t0
+            continue
         o.solver = "z3"
         o.status = None
         r, s = None, None
+        # the exp axioms are a conservative extension: irrelevant (and an
+        # obstacle to model construction) when nothing mentions exp/log
+        if not _mentions(g, _LOGSYMS) and not any(
+                _mentions(h, _LOGSYMS) for h in o.hyps
+                if h.get_id() not in _bg_ids()):
+            o.hyps = [h for h in o.hyps if h.get_id() not in _bg_ids()]
         pruned = None
         if not _mentions(g, _LOGSYMS):
             pruned = [h for h in o.hyps if not _mentions(h, _LOGSYMS)]
@@ -479,6 +518,13 @@ def check_vacuity(pc):
 
 
 _LOGSYMS = ("EXPF", "LOGF", "SUMA")
+
+
+def _bg_ids(_c={}):
+    if "ids" not in _c:
+        from .values import BACKGROUND
+        _c["ids"] = {f.get_id() for f in BACKGROUND if z3.is_quantifier(f)}
+    return _c["ids"]
 
 
 def _mentions(f, names, _cache={}):
